@@ -68,6 +68,26 @@ def run_ulist(case, ctx):
         ctx.check('ulist_operand_unchanged', len(u) == len(s0) and all(a is b for a, b in zip(u, s0)), lambda: 'operand changed: %r -> %r' % (s0, list(u)))
         res2 = res + res  # chained: stays unique
         ctx.check('ulist_model', type(res2) is ulist and leq(list(res2), exp), lambda: 'r + r = %r, model %r' % (list(res2), exp))
+        if case.get('inplace'):
+            # the list's own in-place ways of adding elements: still no duplicates, first occurrence keeps its place
+            w = ulist(list(xs))
+            mw = list(m)
+            add = (other if is_list else [other])
+            how = case['inplace']
+            if how == 'append':
+                for o in add:
+                    w.append(o)
+            elif how == 'extend':
+                w.extend(add)
+            elif how == 'iadd':
+                w += add
+            else:
+                for o in add:
+                    w.insert(0, o)
+            for o in add:
+                if not any(o is y or o == y for y in mw):
+                    mw = ([o] + mw) if how == 'insert' else (mw + [o])
+            ctx.check('ulist_model', type(w) is ulist and leq(list(w), mw), lambda: 'ulist(%r) after in-place %s of %r = %r, model %r' % (xs, how, add, list(w), mw))
     except contracts.InvariantBroken as e:
         ctx.fail('ulist_unique', str(e))
     finally:
@@ -326,7 +346,10 @@ def gen_ulist(rng):
         other = [rng.choice(ELEMS) for _ in range(rng.choice([0, 1, 2, 4]))]
     else:
         other = rng.choice(xs) if xs and rng.random() < 0.5 else rng.choice(ELEMS)
-    return {'kind': 'ulist', 'xs': xs, 'op': rng.choice(['+', '|', '-', '&']), 'other': other}
+    case = {'kind': 'ulist', 'xs': xs, 'op': rng.choice(['+', '|', '-', '&']), 'other': other}
+    if rng.random() < 0.3:
+        case['inplace'] = rng.choice(['append', 'extend', 'iadd', 'insert'])
+    return case
 
 
 KEYS = ['a', 'b', 'c', 'd', 'x1', 'y2', '_id', '_x', 'self', 'data', 'other', 'value']      # some are called like parameters of the library's own methods
